@@ -1376,3 +1376,46 @@ mod tests {
         assert_eq!(n1.to_string(), "1");
     }
 }
+
+/// Accessors used by the external verification harness.
+/// Compiled only with `--cfg indextree_verif`.
+#[cfg(indextree_verif)]
+impl NodeStamp {
+    pub(crate) fn verif_raw(self) -> i16 {
+        self.0
+    }
+}
+
+/// Accessors used by the external verification harness.
+/// Compiled only with `--cfg indextree_verif`.
+#[cfg(indextree_verif)]
+impl NodeId {
+    /// Returns the raw generation stamp of this id.
+    pub fn verif_stamp(self) -> i16 {
+        self.stamp.verif_raw()
+    }
+
+    /// `NodeStamp::is_removed` on a raw stamp.
+    pub fn verif_stamp_is_removed(raw: i16) -> bool {
+        NodeStamp(raw).is_removed()
+    }
+
+    /// `NodeStamp::as_removed` on a raw stamp.
+    pub fn verif_stamp_as_removed(raw: i16) -> i16 {
+        let mut stamp = NodeStamp(raw);
+        stamp.as_removed();
+        stamp.0
+    }
+
+    /// `NodeStamp::reuseable` on a raw stamp.
+    pub fn verif_stamp_reuseable(raw: i16) -> bool {
+        NodeStamp(raw).reuseable()
+    }
+
+    /// `NodeStamp::reuse` on a raw stamp: `(new stamp, returned stamp)`.
+    pub fn verif_stamp_reuse(raw: i16) -> (i16, i16) {
+        let mut stamp = NodeStamp(raw);
+        let returned = stamp.reuse();
+        (stamp.0, returned.0)
+    }
+}
